@@ -271,5 +271,6 @@ def run(rep, tier):
         rep.call(dispatch_rules.precision_reach, rep, prog, "C01.precision-reach")
         # "rounding is to nearest (single-pass results are within half a unit)": the rounding terms
         # that reach every final shift total exactly half an output unit
-        from ..engines import roundbudget
+        from ..engines import roundbudget, simd_rules
+        rep.call(simd_rules.f64_accumulate, rep, prog, "C01.f64-accumulate", {"x86": 100, "x86-rayon": 100}.get(cfg, 8))
         rep.call(roundbudget.budget, rep, prog, "C01.round-budget", {"x86": 110, "arm": 60, "wasm": 55}.get(cfg, 40))
